@@ -18,12 +18,13 @@
   Core Lean only.
 -/
 import NdnVerif.Base.Name
+import NdnVerif.Gen.C20Consts
 namespace Ndn.C20
 
-/-! ## constants (engine.go:22-23), microseconds -/
-def defaultLife : Nat := 4000000      -- DefaultInterestLife = 4 s
-def margin : Nat := 10000             -- TimeoutMargin = 10 ms
-def tImplicitDigest : Nat := 1        -- enc.TypeImplicitSha256DigestComponent
+/-! ## constants, re-extracted from the working tree on every run (harness/cmd/c20facts → Gen/C20Consts.lean) -/
+def defaultLife : Nat := Gen.defaultLifeUs         -- DefaultInterestLife (4 s), µs
+def margin : Nat := Gen.marginUs                   -- TimeoutMargin (10 ms), µs
+def tImplicitDigest : Nat := Gen.typeImplicitDigest -- enc.TypeImplicitSha256DigestComponent
 
 /-! ## the generic name trie (simple_trie.go) -/
 
